@@ -772,6 +772,9 @@ func (r *multiCIDRRangeAllocator) updateCIDRsAllocation(logger klog.Logger, data
 				}
 			}
 			if match {
+				// The reservation is kept for this node, so the node depends
+				// on the ClusterCIDR just as if the patch had been acknowledged.
+				data.clusterCIDR.AssociatedNodes[node.Name] = true
 				logger.V(4).Info("Node already has allocated CIDR. It matches the proposed one.", "node", klog.KObj(node), "CIDRs", data.allocatedCIDRs)
 				return nil
 			}
